@@ -1,8 +1,11 @@
 package props
 
 import (
+	"bytes"
 	"fmt"
+	"math/rand"
 	"os"
+	"path/filepath"
 	"sync"
 	"time"
 
@@ -11,6 +14,7 @@ import (
 	"verif/h/core"
 	"verif/h/drv"
 	"verif/h/hist"
+	"verif/h/model"
 	"verif/h/sched"
 )
 
@@ -89,7 +93,7 @@ func checkRetention(c *core.Ctx, w *drv.World, step string) {
 
 // C13 retention promises of compaction.
 func C13(c *core.Ctx) {
-	c.Rule("driver histories (as C12) with NumVersionsToKeep 1/2/3/unbounded, deletes, past/future expiry, discard-earlier entries and merge-operator entries, open " +
+	c.Rule("driver histories (as C12) with NumVersionsToKeep 1/2/3/unbounded, deletes, past/future expiry, discard-earlier entries and merge-operator entries (small and value-log sized; every fourth history with value-log GC steps), open " +
 		"snapshots and SetDiscardTs movement; after every flush/compaction an AllVersions scan must contain MustRetain(key, U, keep): every version above U plus, walking down, " +
 		"up to keep versions stopping at (excluding) a delete/expired and at (including) a discard-earlier entry, and every merge entry; U is an upper bound of all discard " +
 		"timestamps used so far computed independently (managed: SetDiscardTs value; normal: the smallest open read timestamp, or the newest commit); the discard ts reported by the " +
@@ -119,8 +123,17 @@ func C13(c *core.Ctx) {
 		hookMax = 0
 		mu.Unlock()
 		var mops []*badger.MergeOperator
-		driverRunX(c, "C13", work, i, managed, r, c.Pick(260, 450), false,
-			func(o *badger.Options) { o.NumVersionsToKeep = keep },
+		// every fourth history also runs value-log GC (merge operands and other retained versions that
+		// live in the value log are moved by a rewrite and must keep what makes compaction retain them)
+		withGC := i%4 == 2 && !managed
+		driverRunX(c, "C13", work, i, managed, r, c.Pick(260, 450), withGC,
+			func(o *badger.Options) {
+				o.NumVersionsToKeep = keep
+				if withGC {
+					o.ValueThreshold = 32
+					o.ValueLogMaxEntries = 20
+				}
+			},
 			func(w *drv.World, step string) {
 				if cur != w {
 					cur = w
@@ -140,6 +153,10 @@ func C13(c *core.Ctx) {
 					j := w.R.Intn(len(mops))
 					k := fmt.Sprintf("b~merge%d", j)
 					val := []byte(fmt.Sprintf("m%d;", w.R.Intn(1000)))
+					if w.R.Intn(2) == 0 {
+						val = append(val, bytes.Repeat([]byte{'.'}, 60+w.R.Intn(200))...) // large enough for the value log
+						val = append(val, ';')
+					}
 					if err := mops[j].Add(val); err == nil {
 						ts := w.DB.VerifNextTxnTs() - 1
 						w.M.Put(k, modelMergeVer(ts, val))
@@ -154,10 +171,79 @@ func C13(c *core.Ctx) {
 				}
 				checkRetention(c, w, step)
 			})
-		c.Distinct(fmt.Sprintf("keep=%d|managed=%v", keep, managed))
+		c.Distinct(fmt.Sprintf("keep=%d|managed=%v|gc=%v", keep, managed, withGC))
+	}
+	for i := 0; i < c.Pick(3, 12); i++ {
+		c13MergeThroughGC(c, work, i, r)
 	}
 	if c.Counter("retention.versions_required") == 0 {
 		c.Inconclusive("no retention obligations were checked")
 	}
 	c.Assume("merge-operator Stop() (which runs a final merge) is never called; merge entries are added only in normal mode (GetMergeOperator uses db.Update)")
+}
+
+// c13MergeThroughGC: merge-operator operands large enough for the value log are moved by a GC
+// rewrite (before any background merge folds them) and then go through compactions at or below the
+// discard watermark; every operand must still be there and the operator must still fold all of them.
+func c13MergeThroughGC(c *core.Ctx, work string, idx int, r *rand.Rand) {
+	dir := filepath.Join(work, fmt.Sprintf("mgc%d", idx))
+	_ = os.MkdirAll(dir, 0o755)
+	defer os.RemoveAll(dir)
+	o, _ := drvOptions(dir, 0)
+	o.MemTableSize = 1 << 20
+	o.ValueThreshold = 32
+	o.ValueLogMaxEntries = 24
+	o.MaxLevels = 3
+	o.NumLevelZeroTables = 1
+	o.NumVersionsToKeep = 1 + idx%3
+	db, err := drv.Open(o, false)
+	if err != nil {
+		c.Inconclusive("open: " + err.Error())
+		return
+	}
+	w := &drv.World{C: c, Sig: "C13|merge-through-gc", DB: db, Opt: o, M: model.New(), R: r, NextTs: 5}
+	defer func() { _ = w.DB.Close() }()
+	key := []byte("b~mergegc")
+	mop := w.DB.GetMergeOperator(key, func(a, b []byte) []byte { return append(append([]byte{}, a...), b...) }, time.Hour)
+	var want []byte
+	nOps := 6 + r.Intn(8)
+	for i := 0; i < nOps; i++ {
+		val := append([]byte(fmt.Sprintf("op%d:", i)), bytes.Repeat([]byte{byte('a' + i%26)}, 80+r.Intn(100))...)
+		if err := mop.Add(val); err != nil {
+			c.Inconclusive("merge Add: " + err.Error())
+			return
+		}
+		w.M.Put(string(key), modelMergeVer(w.DB.VerifNextTxnTs()-1, val))
+		want = append(want, val...)
+	}
+	// keep+1 generations of junk: the oldest generation (in the first value-log file, next to the
+	// operands) is discarded by compaction, which gives GC its discard statistics
+	for round := 0; round <= o.NumVersionsToKeep; round++ {
+		for i := 0; i < 18; i++ {
+			_, _ = w.Commit([]drv.WriteSpec{{Key: []byte(fmt.Sprintf("junk%02d", i)), Len: 2000}})
+		}
+		w.Flush()
+		w.AdvanceWatermark()
+		w.CompactForce(0, 1)
+	}
+	checkRetention(c, w, "before-gc")
+	if !w.GC(0.001) {
+		c.Inconclusive("merge-through-gc: GC did not rewrite a file")
+		return
+	}
+	c.Eval(1)
+	c.Count("retention.merge_gc_cases", 1)
+	w.AdvanceWatermark()
+	w.Flush()
+	checkRetention(c, w, "after-gc")
+	for l := 0; l < o.MaxLevels-1; l++ {
+		if w.CompactForce(l, 1) {
+			checkRetention(c, w, fmt.Sprintf("after-gc-compact-L%d", l))
+		}
+	}
+	got, err := mop.Get()
+	if err != nil || !bytes.Equal(got, want) {
+		c.Violation("C13|merge-through-gc|folded-value", fmt.Sprintf("the merge operator folds %d bytes (err=%v) after GC + compaction, the %d operands added amount to %d bytes", len(got), err, nOps, len(want)), w.Witness())
+	}
+	c.Distinct(fmt.Sprintf("merge-through-gc|keep=%d", o.NumVersionsToKeep))
 }
